@@ -26,6 +26,7 @@ RULE = ('Each case = a generated dense dataset (3-20 channels, 1-3 shanks far ap
 RULE += ' Added classes: in-memory curation (spike_clusters updated in place after loading) followed by get_cluster_mean_waveforms / get_merge_map / get_template_counts; all-zero and all-NaN (blanked at load) templates inside merged clusters; datasets shipping only whitening_mat_inv.npy.'
 RULE += ' Cluster ids passed as NumPy scalars of rotating integer dtypes; get_merge_map() asked again after the caller wrote into its first result.'
 RULE += ' Round 5: template_scaling in params.py; first curation of an uncurated dataset saved with save_spike_clusters and loaded again.'
+RULE += ' Round 6: a cluster merged from 35 of 40 templates; a Kilosort-2 templates_ind.npy present.'
 EXHAUSTIVE = {'quick': False, 'thorough': False}
 FLOORS = {'quick': {'evaluations': 1100, 'distinct_nontrivial': 400},
           'thorough': {'evaluations': 15000, 'distinct_nontrivial': 4000}}
